@@ -21,7 +21,7 @@ Sizes(c) ==
      <<64 \div w, 128>>, <<(64 \div w) + 1, 128>>, <<128 \div w, 128>>}
 
 \* only K values the harness instantiates
-Inst(K) == K \in (1 .. 33) \cup {42, 63, 64}
+Inst(K) == K \in (1 .. 33) \cup {42, 63, 64, 65, 127, 128}
 
 N32(n) == <<n \div 65536, n % 65536>>
 
